@@ -854,8 +854,31 @@ class ValidateHostAddress(_Leaf):
         return S
 
     def ensures(self, I, S):
+        if getattr(S, "callsite", False):
+            return []
         return [("C18.accepted-key-is-an-address-of-the-network", S.extra["valid"]),
                 ("C17.returns-true", z3.BoolVal(S.result is True))]
+
+    # ---- use at a call site (_validate_host_config): exact - returns True iff the key is an address of the network,
+    # raises AssertionError otherwise
+    callable_by_contract = True
+    inline_when_concrete = True
+
+    def bind(self, I, fi, args, kwargs):
+        return Scope(a=I.bind_params(fi, args, kwargs))
+
+    def havoc(self, I, S):
+        B.addr_axioms(I)
+        key = nameval(S.a["addr"])
+        subs = S.a["self"].fields["subnets"]
+        nS = ival(B._len(I, subs))
+        a, b = B.EV_A(key), B.EV_B(key)
+        size_a = ival(subs.elem(a)) if isinstance(subs, SymSeq) else doc_size(a)
+        is_int = lambda t: z3.Or(t == B.TAG_INT, t == B.TAG_BOOL)
+        valid = z3.And(B.EV_PAIR(key), is_int(B.EV_TA(key)), is_int(B.EV_TB(key)), 0 < a, a < nS, 0 <= b, b < size_a)
+        if not I.ctx.branch(valid):
+            I.raise_("AssertionError")
+        return True
 
 
 # ---- _validate_sensitive_hosts ---------------------------------------------------------------------------------
@@ -1287,3 +1310,145 @@ class ValidatePrivescs(_ValidateSection):
     """privilege_escalation section with any number of definitions (empty allowed): accepted iff every one is valid"""
     qualname = LQ + "_validate_privescs"
     target_key, target_list = "process", "processes"
+
+
+# ---- _validate_host_config: one host configuration over lists of any length, verified against the contracts of
+# _validate_host_address and _is_valid_firewall_setting
+
+hcv_srv = z3.Function("doc_hc_service", I_, I_)
+hcv_proc = z3.Function("doc_hc_process", I_, I_)
+hfw_key = z3.Function("doc_hfw_key", I_, I_)               # j-th key of the host firewall
+hfw_len = z3.Function("doc_hfw_rule_len", I_, I_)
+hfw_name = z3.Function("doc_hfw_rule_name", I_, I_, I_)
+ISCLOSE = z3.Function("isclose", R_, R_, B_)
+
+
+def _known_upto(f, k, limit):
+    """entries with index < k are names of the scenario list (0..limit-1)"""
+    a = z3.Int("hcv_a")
+    return z3.ForAll([a], z3.Implies(z3.And(0 <= a, a < k), z3.And(0 <= f(a), f(a) < limit)))
+
+
+def _known_distinct(f, n, limit):
+    a, b = z3.Int("hcv_da"), z3.Int("hcv_db")
+    return z3.And(_known_upto(f, n, limit),
+                  z3.ForAll([a, b], z3.Implies(z3.And(0 <= a, a < b, b < n), f(a) != f(b))))
+
+
+def _hfw_entry_ok(e, j):
+    key = hfw_key(j)
+    a, b = B.EV_A(key), B.EV_B(key)
+    is_int = lambda t: z3.Or(t == B.TAG_INT, t == B.TAG_BOOL)
+    addr_ok = z3.And(B.EV_PAIR(key), is_int(B.EV_TA(key)), is_int(B.EV_TB(key)), 0 < a, a < e["nS"], 0 <= b, b < doc_size(a))
+    x, y = z3.Int("hfw_x"), z3.Int("hfw_y")
+    n = hfw_len(key)
+    rule_ok_ = z3.And(z3.ForAll([x], z3.Implies(z3.And(0 <= x, x < n), z3.And(0 <= hfw_name(key, x), hfw_name(key, x) < e["nSrv"]))),
+                      z3.ForAll([x, y], z3.Implies(z3.And(0 <= x, x < n, 0 <= y, y < n, x != y), hfw_name(key, x) != hfw_name(key, y))))
+    return z3.And(addr_ok, rule_ok_)
+
+
+def _hfw_ok(e, k):
+    j = z3.Int("hfw_j")
+    return z3.ForAll([j], z3.Implies(z3.And(0 <= j, j < k), _hfw_entry_ok(e, j)))
+
+
+class _HcvLoop(LoopContract):
+    qualname = LQ + "_validate_host_config"
+    tags = ("C17", "C18")
+
+    def snapshot(self, I, fr, seq):
+        return {}
+
+    def havoc(self, I, fr, entry, seq):
+        for v in loop_assigned(self.st):
+            fr.locals.pop(v, None)
+
+
+@loop_contract
+class HcvServicesLoop(_HcvLoop):
+    ordinal = 1
+
+    def inv(self, I, fr, entry, seq, k):
+        e = I.ext_state["hcv"]
+        return [("earlier-services-known", _known_upto(hcv_srv, k, e["nSrv"]))]
+
+
+@loop_contract
+class HcvProcessesLoop(_HcvLoop):
+    ordinal = 2
+
+    def inv(self, I, fr, entry, seq, k):
+        e = I.ext_state["hcv"]
+        return [("earlier-processes-known", _known_upto(hcv_proc, k, e["nProc"]))]
+
+
+@loop_contract
+class HcvFirewallLoop(_HcvLoop):
+    ordinal = 3
+
+    def inv(self, I, fr, entry, seq, k):
+        return [("earlier-host-firewall-entries-valid", _hfw_ok(I.ext_state["hcv"], k))]
+
+
+@contract
+class ValidateHostConfig(_Leaf):
+    """one host configuration (services / processes / host firewall of any length): accepted iff the services and
+    processes are known and duplicate-free, the OS is known, the host firewall (if any) maps addresses of the network
+    to valid rules, and the value (if any) is a number that agrees with the declared one for a sensitive host"""
+    qualname = LQ + "_validate_host_config"
+
+    def variants(self):
+        return [f"{v}/{fw}/{val}" for v in ("valid", "any") for fw in ("firewall", "no-firewall") for val in ("value", "no-value")]
+
+    def setup(self, I, variant):
+        from pyvc.values import SymDict
+        v, fw, val = variant.split("/")
+        nS, nSrv, nProc, nOS = z3.Int("doc_nS"), z3.Int("doc_nSrv"), z3.Int("doc_nProc"), z3.Int("doc_nOS")
+        ms, mp, nf = z3.Int("doc_hc_n_srv"), z3.Int("doc_hc_n_proc"), z3.Int("doc_hfw_n")
+        j, i2 = z3.Int("hcv_j"), z3.Int("hcv_i")
+        I.ctx.assume(z3.And(nS >= 2, nSrv >= 1, nProc >= 1, nOS >= 1, ms >= 0, mp >= 0, nf >= 0,
+                            z3.ForAll([j], z3.And(doc_size(j) >= 0, hfw_len(j) >= 0))))
+        I.ctx.assume(z3.ForAll([j, i2], z3.Implies(z3.And(0 <= j, j < i2, i2 < nf), hfw_key(j) != hfw_key(i2))))
+        B.addr_axioms(I)
+        e = {"nS": nS, "nSrv": nSrv, "nProc": nProc, "ms": ms, "mp": mp}
+        I.ext_state["hcv"] = e
+        host_os = z3.Int("doc_hc_os")
+        addr = z3.Int("doc_hc_addr")                    # the configuration's own key (a string)
+        hv, hvt = z3.Real("doc_hc_value"), z3.Int("doc_hc_value_type")
+        sens = z3.Function("doc_is_sensitive", I_, I_, B_)
+        sval = z3.Function("doc_sensitive_value", I_, I_, R_)
+        d = {"os": SymV(host_os, "name"),
+             "services": SymSeq(ms, lambda q: SymV(hcv_srv(ival(q)), "name"), "list"),
+             "processes": SymSeq(mp, lambda q: SymV(hcv_proc(ival(q)), "name"), "list")}
+        spec = [_known_distinct(hcv_srv, ms, nSrv), _known_distinct(hcv_proc, mp, nProc), z3.And(0 <= host_os, host_os < nOS)]
+        if fw == "firewall":
+            keys = SymSeq(nf, lambda q: SymV(hfw_key(ival(q)), "name"), "host-firewall.keys")
+            d["firewall"] = SymDict(lambda k: z3.BoolVal(True),
+                                    lambda k: SymSeq(hfw_len(nameval(k)), lambda q, k=k: SymV(hfw_name(nameval(k), ival(q)), "name"), "list"),
+                                    keys=keys, label="host-firewall")
+            spec.append(_hfw_ok(e, nf))
+        if val == "value":
+            d["value"] = SymV(hv, "real", pytag=hvt)
+            num = z3.Or(hvt == B.TAG_INT, hvt == B.TAG_BOOL, hvt == B.TAG_FLOAT)
+            # the key of a host configuration has already been checked to be an address (_has_all_host_addresses)
+            I.ctx.assume(B.EV_PAIR(addr))
+            a, b = B.EV_A(addr), B.EV_B(addr)
+            spec.append(z3.And(num, z3.Implies(sens(a, b), ISCLOSE(hv, sval(a, b)))))
+        spec = z3.And(*spec)
+        if v == "valid":
+            I.ctx.assume(spec)
+        cfg = PyDict(d, fresh=False)
+        sh = SymDict(lambda k: sens(ival(k[0]), ival(k[1])), lambda k: mk(sval(ival(k[0]), ival(k[1])), "real"), label="sensitive_hosts")
+        lo = loader_obj(I, subnets=subnets_seq(nS), services=names_seq(nSrv, "services"), processes=names_seq(nProc, "processes"),
+                        os=names_seq(nOS, "os"), sensitive_hosts=sh)
+        S = Scope()
+        S.extra.update(variant=v, spec=spec, cfg=cfg)
+        S.a = {"self": lo}
+        S.call_args = ([lo, SymV(addr, "name"), cfg], {})
+        return S
+
+    def modifies(self, I, S):
+        return [S.extra["cfg"]]           # a missing host firewall is normalised to an empty one
+
+    def ensures(self, I, S):
+        return [("C18.accepted-host-configuration-is-valid", S.extra["spec"])]
